@@ -548,7 +548,7 @@ func KVAlphabet() []Op {
 					return bad
 				}
 				if len(a.body)+totalLen(a.vals) > 300 {
-					bad.FailClasses = []string{"toobig"}
+					// must be refused; which error wins when the pre-state would refuse it too is spec-silent
 					return bad
 				}
 				x := Expect{OutcomeProp: "C02", FailClasses: []string{"casmismatch", "keyexists", "missing"}}
